@@ -821,7 +821,7 @@ func (e *c20Env) loadEntities(query string, variables string) (ents []any, raw s
 	return resp.Data.Entities, string(out), nil
 }
 
-func c20EntityCheck(run *Run, e *c20Env, r *rand.Rand) {
+func c20EntityCheck(run *Run, e *c20Env, r *rand.Rand, tag map[string]any) {
 	// Warehouse is only ever a representation, never a selected fragment: the mock service answers Warehouse lookups one entity short
 	// on purpose.
 	types := []string{"Product", "Storage", "Warehouse"}
@@ -861,11 +861,11 @@ func c20EntityCheck(run *Run, e *c20Env, r *rand.Rand) {
 	in := map[string]any{"entities": true, "representations": json.RawMessage("[" + strings.Join(reps, ",") + "]")}
 	full, rawFull, err := e.loadEntities(frag(selectable), variables)
 	if err != nil {
-		run.Violate(Violation{Kind: "oracle", Clause: "entities_answer", Input: in, Impl: rawFull, Detail: fmt.Sprintf("the lookup with every fragment fails: %v", err)}, "")
+		run.Violate(Violation{Kind: "oracle", Clause: "entities_answer", Input: c20Tag(in, tag), Impl: rawFull, Detail: fmt.Sprintf("the lookup with every fragment fails: %v", err)}, "")
 		return
 	}
 	if len(full) != n {
-		run.Violate(Violation{Kind: "oracle", Clause: "entities_positional", Input: in, Impl: rawFull, Detail: fmt.Sprintf("%d representations, %d entities: %s", n, len(full), truncate(rawFull, 500))}, "")
+		run.Violate(Violation{Kind: "oracle", Clause: "entities_positional", Input: c20Tag(in, tag), Impl: rawFull, Detail: fmt.Sprintf("%d representations, %d entities: %s", n, len(full), truncate(rawFull, 500))}, "")
 		return
 	}
 	for i, ent := range full {
@@ -878,7 +878,7 @@ func c20EntityCheck(run *Run, e *c20Env, r *rand.Rand) {
 			continue
 		}
 		{
-			run.Violate(Violation{Kind: "oracle", Clause: "entities_positional", Input: in, Impl: rawFull, Detail: fmt.Sprintf("entity %d answers a %s representation with %s", i, kinds[i], truncate(jsonStr(ent), 200))}, "")
+			run.Violate(Violation{Kind: "oracle", Clause: "entities_positional", Input: c20Tag(in, tag), Impl: rawFull, Detail: fmt.Sprintf("entity %d answers a %s representation with %s", i, kinds[i], truncate(jsonStr(ent), 200))}, "")
 			return
 		}
 	}
@@ -974,7 +974,7 @@ func (e *c20Env) loadRequires(fields []c20Req, variables string) (ents []any, ra
 	return resp.Data.Entities, string(out), nil
 }
 
-func c20RequiresCheck(run *Run, e *c20Env, r *rand.Rand) {
+func c20RequiresCheck(run *Run, e *c20Env, r *rand.Rand, tag map[string]any) {
 	n := 1 + r.Intn(4)
 	var reps []string
 	var kinds []string
@@ -1014,11 +1014,11 @@ func c20RequiresCheck(run *Run, e *c20Env, r *rand.Rand) {
 			run.Feat("requires:enum_value_not_mapped")
 			return
 		}
-		run.Violate(Violation{Kind: "oracle", Clause: "requires_answer", Input: in, Impl: rawFull, Detail: fmt.Sprintf("the lookup with fields %v fails: %v", chosen2names(chosen), err)}, "")
+		run.Violate(Violation{Kind: "oracle", Clause: "requires_answer", Input: c20Tag(in, tag), Impl: rawFull, Detail: fmt.Sprintf("the lookup with fields %v fails: %v", chosen2names(chosen), err)}, "")
 		return
 	}
 	if len(full) != n {
-		run.Violate(Violation{Kind: "oracle", Clause: "entities_positional", Input: in, Impl: rawFull, Detail: fmt.Sprintf("%d representations, %d entities: %s", n, len(full), truncate(rawFull, 500))}, "")
+		run.Violate(Violation{Kind: "oracle", Clause: "entities_positional", Input: c20Tag(in, tag), Impl: rawFull, Detail: fmt.Sprintf("%d representations, %d entities: %s", n, len(full), truncate(rawFull, 500))}, "")
 		return
 	}
 	for i, ent := range full {
@@ -1026,7 +1026,7 @@ func c20RequiresCheck(run *Run, e *c20Env, r *rand.Rand) {
 		switch {
 		case m != nil && m["__typename"] == kinds[i] && fmt.Sprint(m["id"]) == c20RepID(reps[i]):
 		default:
-			run.Violate(Violation{Kind: "oracle", Clause: "entities_positional", Input: in, Impl: rawFull, Detail: fmt.Sprintf("entity %d answers a %s representation (%s) with %s", i, kinds[i], reps[i], truncate(jsonStr(ent), 200))}, "")
+			run.Violate(Violation{Kind: "oracle", Clause: "entities_positional", Input: c20Tag(in, tag), Impl: rawFull, Detail: fmt.Sprintf("entity %d answers a %s representation (%s) with %s", i, kinds[i], reps[i], truncate(jsonStr(ent), 200))}, "")
 			return
 		}
 	}
@@ -1044,7 +1044,7 @@ func c20RequiresCheck(run *Run, e *c20Env, r *rand.Rand) {
 		sub, rawSub, err := e.loadRequires(alt, variables)
 		in2 := map[string]any{"requires": true, "representations": in["representations"], "fields": chosen2names(alt)}
 		if err != nil {
-			run.Violate(Violation{Kind: "oracle", Clause: "requires_answer", Input: in2, Impl: rawSub, Detail: fmt.Sprintf("the lookup with fields %v fails (with %v it answers): %v", chosen2names(alt), chosen2names(chosen), err)}, "")
+			run.Violate(Violation{Kind: "oracle", Clause: "requires_answer", Input: c20Tag(in2, tag), Impl: rawSub, Detail: fmt.Sprintf("the lookup with fields %v fails (with %v it answers): %v", chosen2names(alt), chosen2names(chosen), err)}, "")
 			return
 		}
 		ok := len(sub) == n
@@ -1062,7 +1062,7 @@ func c20RequiresCheck(run *Run, e *c20Env, r *rand.Rand) {
 			}
 		}
 		if !ok {
-			run.Violate(Violation{Kind: "oracle", Clause: "requires_stable_under_subset_selection", Input: in2, Impl: rawSub, Model: rawFull,
+			run.Violate(Violation{Kind: "oracle", Clause: "requires_stable_under_subset_selection", Input: c20Tag(in2, tag), Impl: rawSub, Model: rawFull,
 				Detail: fmt.Sprintf("with fields %v the lookup answers %s; with fields %v %s: a field's value must not depend on which other fields are selected", chosen2names(alt), truncate(rawSub, 600), chosen2names(chosen), truncate(rawFull, 600))}, "")
 			return
 		}
@@ -1144,7 +1144,7 @@ func (e *c20Env) loadEntityResolvers(sel map[string][]c20Req, order []string, va
 	return resp.Data.Entities, string(out), nil
 }
 
-func c20EntityResolverCheck(run *Run, e *c20Env, r *rand.Rand) {
+func c20EntityResolverCheck(run *Run, e *c20Env, r *rand.Rand, tag map[string]any) {
 	n := 1 + r.Intn(5)
 	var reps, kinds []string
 	for i := 0; i < n; i++ {
@@ -1171,11 +1171,11 @@ func c20EntityResolverCheck(run *Run, e *c20Env, r *rand.Rand) {
 	in := map[string]any{"entityResolvers": true, "representations": json.RawMessage("[" + strings.Join(reps, ",") + "]"), "fields": names(chosen)}
 	full, rawFull, err := e.loadEntityResolvers(chosen, []string{"Product", "Storage"}, variables)
 	if err != nil {
-		run.Violate(Violation{Kind: "oracle", Clause: "entity_resolvers_answer", Input: in, Impl: rawFull, Detail: fmt.Sprintf("the lookup with fields %v fails: %v", names(chosen), err)}, "")
+		run.Violate(Violation{Kind: "oracle", Clause: "entity_resolvers_answer", Input: c20Tag(in, tag), Impl: rawFull, Detail: fmt.Sprintf("the lookup with fields %v fails: %v", names(chosen), err)}, "")
 		return
 	}
 	if len(full) != n {
-		run.Violate(Violation{Kind: "oracle", Clause: "entities_positional", Input: in, Impl: rawFull, Detail: fmt.Sprintf("%d representations, %d entities: %s", n, len(full), truncate(rawFull, 500))}, "")
+		run.Violate(Violation{Kind: "oracle", Clause: "entities_positional", Input: c20Tag(in, tag), Impl: rawFull, Detail: fmt.Sprintf("%d representations, %d entities: %s", n, len(full), truncate(rawFull, 500))}, "")
 		return
 	}
 	for i, ent := range full {
@@ -1184,7 +1184,7 @@ func c20EntityResolverCheck(run *Run, e *c20Env, r *rand.Rand) {
 		case kinds[i] == "Warehouse" && ent == nil:
 		case m != nil && m["__typename"] == kinds[i] && fmt.Sprint(m["id"]) == c20RepID(reps[i]):
 		default:
-			run.Violate(Violation{Kind: "oracle", Clause: "entities_positional", Input: in, Impl: rawFull, Detail: fmt.Sprintf("entity %d answers a %s representation (%s) with %s", i, kinds[i], reps[i], truncate(jsonStr(ent), 300))}, "")
+			run.Violate(Violation{Kind: "oracle", Clause: "entities_positional", Input: c20Tag(in, tag), Impl: rawFull, Detail: fmt.Sprintf("entity %d answers a %s representation (%s) with %s", i, kinds[i], reps[i], truncate(jsonStr(ent), 300))}, "")
 			return
 		}
 	}
@@ -1209,7 +1209,7 @@ func c20EntityResolverCheck(run *Run, e *c20Env, r *rand.Rand) {
 		sub, rawSub, err := e.loadEntityResolvers(a.sel, a.order, variables)
 		in2 := map[string]any{"entityResolvers": true, "representations": in["representations"], "fields": names(a.sel), "order": a.order}
 		if err != nil {
-			run.Violate(Violation{Kind: "oracle", Clause: "entity_resolvers_answer", Input: in2, Impl: rawSub, Detail: fmt.Sprintf("the lookup with fields %v (fragments %v) fails, with %v it answers: %v", names(a.sel), a.order, names(chosen), err)}, "")
+			run.Violate(Violation{Kind: "oracle", Clause: "entity_resolvers_answer", Input: c20Tag(in2, tag), Impl: rawSub, Detail: fmt.Sprintf("the lookup with fields %v (fragments %v) fails, with %v it answers: %v", names(a.sel), a.order, names(chosen), err)}, "")
 			return
 		}
 		ok := len(sub) == n
@@ -1231,7 +1231,7 @@ func c20EntityResolverCheck(run *Run, e *c20Env, r *rand.Rand) {
 			}
 		}
 		if !ok {
-			run.Violate(Violation{Kind: "oracle", Clause: "entity_resolvers_stable_under_subset_selection", Input: in2, Impl: rawSub, Model: rawFull,
+			run.Violate(Violation{Kind: "oracle", Clause: "entity_resolvers_stable_under_subset_selection", Input: c20Tag(in2, tag), Impl: rawSub, Model: rawFull,
 				Detail: fmt.Sprintf("with fields %v (fragments %v) the lookup answers %s; with fields %v %s: a field's value must not depend on which other fields are selected", names(a.sel), a.order, truncate(rawSub, 700), names(chosen), truncate(rawFull, 700))}, "")
 			return
 		}
@@ -1250,6 +1250,46 @@ func chosen2names(fs []c20Req) []string {
 	return out
 }
 
+// every randomized stream draws from its own PRNG state, derived from (seed, stream, case index): the three are recorded
+// in the violation's input, so that `--replay` regenerates exactly the case
+var c20Streams = map[string]struct {
+	offset int
+	f      func(run *Run, e *c20Env, r *rand.Rand, tag map[string]any)
+}{}
+
+func init() {
+	c20Streams["reuse"] = struct {
+		offset int
+		f      func(run *Run, e *c20Env, r *rand.Rand, tag map[string]any)
+	}{1_100_000_000, c20ReuseCheck}
+	c20Streams["entities"] = struct {
+		offset int
+		f      func(run *Run, e *c20Env, r *rand.Rand, tag map[string]any)
+	}{1_200_000_000, c20EntityCheck}
+	c20Streams["requires"] = struct {
+		offset int
+		f      func(run *Run, e *c20Env, r *rand.Rand, tag map[string]any)
+	}{1_300_000_000, c20RequiresCheck}
+	c20Streams["entityResolvers"] = struct {
+		offset int
+		f      func(run *Run, e *c20Env, r *rand.Rand, tag map[string]any)
+	}{1_400_000_000, c20EntityResolverCheck}
+	c20Streams["arguments"] = struct {
+		offset int
+		f      func(run *Run, e *c20Env, r *rand.Rand, tag map[string]any)
+	}{1_600_000_000, c20ArgumentsCheck}
+}
+
+func c20RunStream(run *Run, e *c20Env, name string, seed int64, k int) {
+	st := c20Streams[name]
+	st.f(run, e, subRng(seed, st.offset+k), map[string]any{"stream": name, "seed": seed, "k": k})
+}
+
+func c20Tag(in map[string]any, tag map[string]any) map[string]any {
+	in["replay"] = tag
+	return in
+}
+
 func c20RepID(rep string) string {
 	var m map[string]any
 	_ = json.Unmarshal([]byte(rep), &m)
@@ -1257,7 +1297,7 @@ func c20RepID(rep string) string {
 }
 
 // the answer for (operation, variables) does not depend on what the datasource served before
-func c20ReuseCheck(run *Run, e *c20Env, r *rand.Rand) {
+func c20ReuseCheck(run *Run, e *c20Env, r *rand.Rand, tag map[string]any) {
 	q := c20ReuseQueries[r.Intn(len(c20ReuseQueries))]
 	shared, err := e.newDataSource(q)
 	if err != nil {
@@ -1313,6 +1353,24 @@ func runC20(run *Run, replay string) Spec {
 					} `json:"input"`
 				} `json:"violation"`
 			}
+			var fr struct {
+				Violation struct {
+					Input struct {
+						Replay *struct {
+							Stream string `json:"stream"`
+							Seed   int64  `json:"seed"`
+							K      int    `json:"k"`
+						} `json:"replay"`
+					} `json:"input"`
+				} `json:"violation"`
+			}
+			if json.Unmarshal(b, &fr) == nil && fr.Violation.Input.Replay != nil {
+				if _, ok := c20Streams[fr.Violation.Input.Replay.Stream]; ok {
+					c20RunStream(run, e, fr.Violation.Input.Replay.Stream, fr.Violation.Input.Replay.Seed, fr.Violation.Input.Replay.K)
+					run.Count("replay")
+					return spec
+				}
+			}
 			if json.Unmarshal(b, &f) == nil && f.Violation.Input.Case != nil {
 				c20Check(run, e, f.Violation.Input.Case)
 				run.Count("replay")
@@ -1364,19 +1422,19 @@ func runC20(run *Run, replay string) Spec {
 					c.Formulations = append(c.Formulations, "query Q { "+root.field+root.args+" "+f.selOf(tree, false)+" }")
 				}
 				if k%10 == 0 {
-					c20ReuseCheck(run, e, r)
+					c20RunStream(run, e, "reuse", run.Seed, k)
 				}
 				if k%10 == 5 {
-					c20EntityCheck(run, e, r)
+					c20RunStream(run, e, "entities", run.Seed, k)
 				}
 				if k%10 == 8 {
-					c20RequiresCheck(run, e, r)
+					c20RunStream(run, e, "requires", run.Seed, k)
 				}
 				if k%10 == 2 {
-					c20EntityResolverCheck(run, e, r)
+					c20RunStream(run, e, "entityResolvers", run.Seed, k)
 				}
 				if k%5 == 1 {
-					c20ArgumentsCheck(run, e, r)
+					c20RunStream(run, e, "arguments", run.Seed, k)
 				}
 				run.SetCurrent(w, c)
 				c20Check(run, e, c)
